@@ -357,4 +357,116 @@ theorem C09_code_lifetime_bound (lower : Bytes → Bytes) (emailOK : Bytes → B
       exact this
 
 
+
+/-! ### The CSRF cookie across a browser's history at the authenticator
+
+`/start` sets the cookie to a fresh nonce; the callback reads it and — as soon as it has read it, matching or not — clears it.
+A browser's history is a list of such events; the callback's `csrfCookie` input is whatever the history left in the jar. -/
+
+/-- a callback that creates a session did read the cookie -/
+theorem session_reads_cookie (emailOK : Bytes → Bool) (i : CbIn) (e : Bytes) (loc : String)
+    (h : oauthCallback emailOK i = .session e loc) : readsCookie i = true := by
+  obtain ⟨h1, h2, ⟨a, r, t, h3⟩, h4, h5, h6, _⟩ := C09_callback_creates_session_only_if emailOK i e loc h
+  simp [readsCookie, h1, h2, h3, h4, h5, h6]
+
+/-- no `/start`, and no callback that got as far as reading the cookie -/
+def Untouched (evs : List CEv) : Prop :=
+  ∀ ev ∈ evs, match ev with
+    | .start _ => False
+    | .callback j => readsCookie j = false
+
+theorem jar_some_origin (evs : List CEv) (j0 : Option String) (n : String) (h : evs.foldl jarStep j0 = some n) :
+    (∃ before after, evs = before ++ .start n :: after ∧ Untouched after) ∨ (j0 = some n ∧ Untouched evs) := by
+  induction evs generalizing j0 with
+  | nil => right; exact ⟨by simpa using h, by intro ev hev; cases hev⟩
+  | cons ev t ih =>
+    simp only [List.foldl_cons] at h
+    rcases ih _ h with ⟨b, a, ht, ha⟩ | ⟨hj, ht⟩
+    · left; exact ⟨ev :: b, a, by simp [ht], ha⟩
+    · cases ev with
+      | start m =>
+        simp only [jarStep, Option.some.injEq] at hj
+        subst hj
+        left; exact ⟨[], t, by simp, ht⟩
+      | callback j =>
+        simp only [jarStep] at hj
+        by_cases hc : (readsCookie j && j0.isSome) = true
+        · simp [hc] at hj
+        · simp only [hc, Bool.false_eq_true, if_false] at hj
+          right
+          refine ⟨hj, ?_⟩
+          intro ev hev
+          rcases List.mem_cons.1 hev with h1 | h1
+          · subst h1
+            simp only [hj, Option.isSome_some, Bool.and_true] at hc
+            simpa using hc
+          · exact ht ev h1
+
+/-- **The nonce a session-creating callback rides on is the one the most recent `/start` of this browser handed out, and
+nothing has read the cookie since.** In particular it is a nonce this service generated — never a value of the caller's
+choosing, never the empty string unless `/start` handed that out. -/
+theorem C09_callback_nonce_is_outstanding_start (emailOK : Bytes → Bool) (pre : List CEv) (i : CbIn) (e : Bytes) (loc : String)
+    (h : callbackIn emailOK pre i = .session e loc) :
+    ∃ before after, pre = before ++ .start i.stateNonce :: after ∧ Untouched after := by
+  have hj : jarOf pre = some i.stateNonce := by
+    have := (C09_callback_creates_session_only_if emailOK _ e loc h).2.2.2.2.2.2.1
+    simpa using this
+  rcases jar_some_origin pre none i.stateNonce hj with h1 | ⟨h1, _⟩
+  · exact h1
+  · cases h1
+
+/-- **One shot**: right after a callback that read the cookie (whether it created a session or failed on the nonce, the
+redirect or the e-mail rule), no callback creates a session until `/start` runs again — a replayed or second forged callback
+finds no cookie. -/
+theorem C09_callback_one_shot (emailOK : Bytes → Bool) (pre : List CEv) (i j : CbIn) (hr : readsCookie i = true) :
+    ∀ e loc, callbackIn emailOK (pre ++ [.callback i]) j ≠ .session e loc := by
+  intro e loc h
+  have hj := (C09_callback_creates_session_only_if emailOK _ e loc h).2.2.2.2.2.2.1
+  simp only [jarOf, List.foldl_append, List.foldl_cons, List.foldl_nil, jarStep, hr, Bool.true_and] at hj
+  cases hjar : List.foldl jarStep none pre with
+  | none => rw [hjar] at hj; simp at hj
+  | some c => rw [hjar] at hj; simp at hj
+
+/-- with no `/start` in the history no callback creates a session, whatever state, code and e-mail it carries -/
+theorem C09_no_start_no_session (emailOK : Bytes → Bool) (pre : List CEv) (i : CbIn)
+    (hn : ∀ ev ∈ pre, match ev with | .start _ => False | .callback _ => True) :
+    ∀ e loc, callbackIn emailOK pre i ≠ .session e loc := by
+  intro e loc h
+  obtain ⟨b, a, hl, _⟩ := C09_callback_nonce_is_outstanding_start emailOK pre i e loc h
+  have := hn (.start i.stateNonce) (by rw [hl]; simp)
+  exact this
+
+-- the hypotheses are satisfiable: a start followed by the matching callback creates the session
+example : callbackIn (fun _ => true) [.start "n1"]
+    { errorParam := "", code := "c", login := .session [97] "at" "rt" 60, stateDecodes := true, stateNonce := "n1",
+      stateRedirect := "https://app.x.io/", stateHasColon := true, csrfCookie := none, redirectValid := true } =
+    .session [97] "https://app.x.io/" := by
+  simp [callbackIn, jarOf, jarStep, oauthCallback]
+
+/-- Tie (T1), second wave: helpers, stores and second callers on this property's path (aead_GenerateKey, store_SetCSRF, store_GetCSRF, store_ClearCSRF, auth_OAuthStart, auth_OAuthCallback, auth_getOAuthCallback, google_RefreshSessionIfNeeded, okta_RefreshSessionIfNeeded, google_ValidateSessionState, okta_ValidateSessionState) — call/branch/store skeletons
+regenerated from the source on every run against the expectations frozen here. -/
+theorem C09_wiring2 :
+    Sso.Generated.skel_aead_GenerateKey =
+      ["call:GenerateKey", "return"] ∧
+    Sso.Generated.skel_store_SetCSRF =
+      ["call:Now", "call:makeCSRFCookie", "call:SetCookie"] ∧
+    Sso.Generated.skel_store_GetCSRF =
+      ["call:Cookie", "return"] ∧
+    Sso.Generated.skel_store_ClearCSRF =
+      ["call:Now", "call:makeCSRFCookie", "call:SetCookie"] ∧
+    Sso.Generated.skel_auth_OAuthStart =
+      ["call:GenerateKey", "call:Sprintf", "call:SetCSRF", "call:Query", "call:Get", "call:Parse", "call:String", "call:validRedirectURI", "if{", "call:ErrorResponse", "return", "}", "call:Query", "call:Get", "call:Parse", "call:String", "call:validRedirectURI", "if{", "call:ErrorResponse", "return", "}", "call:Query", "call:Get", "call:Query", "call:Get", "call:String", "call:validSignature", "if{", "call:ErrorResponse", "return", "}", "call:GetRedirectURI", "call:String", "call:Sprintf", "call:?", "call:EncodeToString", "call:GetSignInURL", "call:Redirect"] ∧
+    Sso.Generated.skel_auth_OAuthCallback =
+      ["call:getOAuthCallback", "typeswitch{", "case{", "break", "}", "case{", "call:ErrorResponse", "return", "}", "case{", "call:ErrorResponse", "return", "}", "}", "call:Redirect"] ∧
+    Sso.Generated.skel_auth_getOAuthCallback =
+      ["call:getRemoteAddr", "call:ParseForm", "if{", "call:Error", "return", "}", "call:Get", "if{", "return", "}", "call:Get", "if{", "return", "}", "call:redeemCode", "if{", "return", "}", "call:Get", "call:DecodeString", "if{", "return", "}", "call:string", "call:SplitN", "call:len", "if{", "return", "}", "call:GetCSRF", "if{", "return", "}", "call:ClearCSRF", "if{", "return", "}", "call:validRedirectURI", "if{", "return", "}", "call:RunValidators", "call:len", "call:len", "if{", "call:len", "call:make", "range{", "call:Error", "call:append", "}", "call:Join", "call:Sprintf", "return", "}", "call:SaveSession", "if{", "return", "}", "return"] ∧
+    Sso.Generated.skel_google_RefreshSessionIfNeeded =
+      ["call:RefreshPeriodExpired", "if{", "return", "}", "call:RefreshAccessToken", "if{", "return", "}", "store:s.AccessToken", "call:Now", "call:Add", "call:Truncate", "store:s.RefreshDeadline", "return"] ∧
+    Sso.Generated.skel_okta_RefreshSessionIfNeeded =
+      ["call:RefreshPeriodExpired", "if{", "return", "}", "call:RefreshAccessToken", "if{", "return", "}", "store:s.AccessToken", "call:Now", "call:Add", "call:Truncate", "store:s.RefreshDeadline", "return"] ∧
+    Sso.Generated.skel_google_ValidateSessionState =
+      ["if{", "return", "}", "call:Set", "call:String", "call:googleRequest", "if{", "return", "}", "return"] ∧
+    Sso.Generated.skel_okta_ValidateSessionState =
+      ["if{", "return", "}", "call:Add", "call:Add", "call:Add", "call:Add", "call:String", "call:oktaRequest", "if{", "return", "}", "if{", "return", "}", "return"] := by decide
+
 end Sso.AuthN
